@@ -9,9 +9,7 @@ use crate::{
         lexer::LexerMode,
         parser::{
             static_analysis::run_static_analysis_on_node,
-            stringify::{
-                rename_sheet_in_node, to_english_string, to_localized_string, to_rc_format,
-            },
+            stringify::{rename_sheet_in_node, to_english_string, to_rc_format},
             Node, Parser,
         },
         types::CellReferenceRC,
